@@ -60,7 +60,7 @@ def run(ctx):
                'rows with infinite chi^2: ranking and identity only (observed: remove_resolved never excludes the largest trial aperture, so it yields excluded (model, distance) pairs but no infinite rows; infinities inside chi^2 are mapped to 1e30)', 'remove_resolved only with use_memmap=False (memmap path skips the exclusion; outside every quantifier)',
                'tie order is free')
     ctx.require_events('Fitter.fit:post', 'rows_checked', 'model_fluxes_checked')
-    ctx.require_regimes('exact_ties', 'rows_1e30', 'resolved_excluded', 'single_model', 'models>=200', 'mode:2d', 'mode:3d', 'style:v1', 'style:v2')
+    ctx.require_regimes('exact_ties', 'rows_1e30', 'rows_inf', 'rows_nan', 'resolved_excluded', 'single_model', 'models>=200', 'mode:2d', 'mode:3d', 'style:v1', 'style:v2')
     n_pkg = 16 if ctx.quick else 60
     n_src = 20 if ctx.quick else 40
     for ip in range(n_pkg):
@@ -97,6 +97,12 @@ def run(ctx):
             for _ in range(ndup):
                 a, b = rng.choice(n_models, 2, replace=False)
                 conv[b] = conv[a]
+        # models that end up with a non-finite chi^2: zero flux in one band (2-D: NaN rows) ...
+        zero_models = []
+        if mode == '2d' and n_models >= 3 and rng.random() < 0.4:
+            zero_models = [int(x) for x in rng.choice(n_models - 1, int(rng.integers(1, 3)), replace=False)]   # never only the last ones
+            for m in zero_models:
+                conv[m, :, int(rng.integers(n_bands))] = 0.0
         order = list(rng.permutation(n_models)) if style == 'v1' else list(range(n_models))
         step = float(rng.choice([0.05, 0.1, 0.2]))
         if style == 'v1':
@@ -133,6 +139,14 @@ def run(ctx):
         ctx.regime('mode:' + mode)
         if resolved and np.any(np.asarray(fitter.models.extended)):
             ctx.regime('resolved_excluded')
+        # ... or exclusion at every trial distance (3-D: infinite rows).  remove_resolved itself never excludes the largest
+        # trial aperture, so the public `extended` mask is set directly for a few models that are not last in grid order.
+        forced_inf = []
+        if mode == '3d' and not memmap and n_models >= 3 and rng.random() < 0.5 and isinstance(fitter.models.extended, np.ndarray) \
+                and getattr(fitter.models.extended, 'ndim', 0) == 3:
+            forced_inf = [int(x) for x in rng.choice(n_models - 1, int(rng.integers(1, 3)), replace=False)]
+            fitter.models.extended[forced_inf, :, :] = True
+            resolved = True
         ctx.regime('style:' + style)
         if n_models == 1:
             ctx.regime('single_model')
@@ -140,7 +154,8 @@ def run(ctx):
             ctx.regime('models>=200')
         is_v2 = style == 'v2'
         if mode == '2d':
-            logm = np.log10(conv[:, 0, :])
+            with np.errstate(divide='ignore'):
+                logm = np.log10(conv[:, 0, :])
             logd = None
         else:
             dist = np.asarray(fitter.models.distances.to(u.kpc).value, float)
@@ -148,7 +163,7 @@ def run(ctx):
             logd = np.log10(dist)
         delta = 3e-7 * (1 + float(np.max(np.abs(np.asarray(logm, float))))) if (memmap and is_v2) else 0.0
         for isrc in range(n_src):
-            m0 = int(rng.integers(n_models))
+            m0 = int(rng.choice([m for m in range(n_models) if m not in zero_models]))
             a0 = float(rng.uniform(0, 12))
             if mode == '2d':
                 pred = logm[m0] + a0 * k - 2 * float(rng.uniform(-1, 1))
@@ -176,7 +191,7 @@ def run(ctx):
             fitter.av_range = (lo, hi)
             truth = fitcheck.GridTruth(names, logm, k, lo, hi, delta=delta, logd=logd)
             REG.clear()
-            REG[id(fitter)] = (truth, rownames, mode, resolved)
+            REG[id(fitter)] = (truth, rownames, mode, resolved or bool(forced_inf))
             wit = dict(wit0, valid=valid, flux=flux, error=err, av_range=(lo, hi))
             CUR.update(phot=(valid, flux, err), wit=wit, summary=None)
             try:
@@ -199,8 +214,10 @@ def run(ctx):
                     ctx.regime('exact_ties')
                 if np.any((chi >= 1e29) & np.isfinite(chi)):
                     ctx.regime('rows_1e30')
-                if np.any(np.isinf(chi)):
+                if np.any(np.isinf(chi)) and np.any(np.isfinite(chi)):
                     ctx.regime('rows_inf')
+                if np.any(np.isnan(chi)) and np.any(np.isfinite(chi)):
+                    ctx.regime('rows_nan')
         CUR.update(phot=None)
         ctx.rmdir(d)
 
